@@ -1876,6 +1876,33 @@ fn parse_record_entry(pair: Pair<Rule>, preserve_comments: bool) -> AnyhowResult
     }
 }
 
+/// Value of the digits of a `0b` / `0x` literal (`_` separators allowed), correctly rounded to the
+/// nearest double for any number of digits. Returns None for a character that is not a digit.
+fn radix_literal_to_f64(digits: &str, radix: u32) -> Option<f64> {
+    let bits_per_digit = if radix == 16 { 4 } else { 1 };
+    // Keep the 64 most significant bits; fold everything below them into a sticky bit, which is
+    // enough for `u64 as f64` to round to nearest-even as if it had seen the whole number.
+    let mut mantissa: u64 = 0;
+    let mut dropped_bits: i32 = 0;
+    let mut sticky = false;
+    for c in digits.chars().filter(|c| *c != '_') {
+        let digit = c.to_digit(radix)? as u64;
+        for shift in (0..bits_per_digit).rev() {
+            let bit = (digit >> shift) & 1;
+            if mantissa >> 63 == 0 {
+                mantissa = (mantissa << 1) | bit;
+            } else {
+                dropped_bits += 1;
+                sticky |= bit == 1;
+            }
+        }
+    }
+    if sticky {
+        mantissa |= 1;
+    }
+    Some(mantissa as f64 * 2_f64.powi(dropped_bits))
+}
+
 // Convert Pest pairs to our AST (without comment preservation)
 pub fn pairs_to_expr(pairs: Pairs<Rule>) -> AnyhowResult<SpannedExpr> {
     pairs_to_expr_inner(pairs, false)
@@ -1906,10 +1933,8 @@ fn pairs_to_expr_inner(pairs: Pairs<Rule>, preserve_comments: bool) -> AnyhowRes
                         } else {
                             (1.0, &num_str[2..])
                         };
-                        let cleaned = digits.replace("_", "");
-                        let parsed = i64::from_str_radix(&cleaned, 2)
-                            .map_err(|e| anyhow!("Invalid binary number: {}", e))?;
-                        sign * parsed as f64
+                        sign * radix_literal_to_f64(digits, 2)
+                            .ok_or_else(|| anyhow!("Invalid binary number: {}", num_str))?
                     } else if num_str.starts_with("0x")
                         || num_str.starts_with("-0x")
                         || num_str.starts_with("+0x")
@@ -1922,10 +1947,8 @@ fn pairs_to_expr_inner(pairs: Pairs<Rule>, preserve_comments: bool) -> AnyhowRes
                         } else {
                             (1.0, &num_str[2..])
                         };
-                        let cleaned = digits.replace("_", "");
-                        let parsed = i64::from_str_radix(&cleaned, 16)
-                            .map_err(|e| anyhow!("Invalid hexadecimal number: {}", e))?;
-                        sign * parsed as f64
+                        sign * radix_literal_to_f64(digits, 16)
+                            .ok_or_else(|| anyhow!("Invalid hexadecimal number: {}", num_str))?
                     } else {
                         // Decimal number (existing logic)
                         num_str
